@@ -74,7 +74,17 @@ func c10xProperty(t *rapid.T, st *Stats) {
 	// the epilogue of the C12 generator collects; here nothing is collected (the policy is off), the steps stay harmless
 	trace := []string{}
 	fail := func(key, f string, a ...any) { Fail(t, st, key, fmt.Sprintf(f, a...), trace, nil) }
-	conf := func(root string) config.Config { return baseConf(config.StoreDir, root) }
+	// half of the cases collect for real (untagged manifests, empty repositories, no grace period): the collections of
+	// the history and the one at every Close then remove files, and a fault can hit a removal
+	collecting := rapid.Bool().Draw(t, "collecting")
+	conf := func(root string) config.Config {
+		c := baseConf(config.StoreDir, root)
+		if collecting {
+			c.Storage.GC.GracePeriod = -1
+			c.Storage.GC.Untagged, c.Storage.GC.EmptyRepo = bp(true), bp(true)
+		}
+		return c
+	}
 	root0 := tmp + "/count"
 	vfs.Reset(root0, true)
 	h0 := olareg.New(conf(root0))
@@ -141,6 +151,15 @@ func c10xProperty(t *rapid.T, st *Stats) {
 			}
 			h = olareg.New(conf(root))
 			trace = append(trace, "restart")
+			// the collection at Close makes file-system calls too: a fault delivered there belongs to this step
+			if faultStep < 0 {
+				for _, op := range vfs.Log() {
+					if strings.HasSuffix(op.Kind, "!fault") {
+						faultStep, faultOp = i, fmt.Sprintf("%s(%s)", op.Kind, strings.TrimPrefix(op.Path, root))
+						trace = append(trace, "  fault delivered: "+faultOp)
+					}
+				}
+			}
 			continue
 		}
 		if !withWatchdog(30*time.Second, func() { res = s.run(h) }) {
@@ -165,7 +184,12 @@ func c10xProperty(t *rapid.T, st *Stats) {
 	}
 	vfs.Reset(root, false)
 	// ---- quiescent point
-	if _, problems := validateLayoutTree(root, layoutOpts{}); len(problems) > 0 {
+	if collecting && avoid("C10/gc-save-failed-entries-without-blob") {
+		// listed finding: a collection removes the blob files first and saves index.json afterwards; when that save
+		// fails the entries of the removed blobs stay listed until the next collection. The directory is judged
+		// after that next collection (below) while the finding is listed.
+		st.Exclude("C10/gc-save-failed-entries-without-blob: layout judged after the next collection")
+	} else if _, problems := validateLayoutTree(root, layoutOpts{}); len(problems) > 0 {
 		fail("layout-invalid-after-io-error", "after a history with an I/O error (%s in %q) the directory is not a valid layout: %s", faultOp, stepName(steps, faultStep), strings.Join(problems, "; "))
 	}
 	u := c12fUniverse()
@@ -173,6 +197,14 @@ func c10xProperty(t *rapid.T, st *Stats) {
 	if hasIndexPut && avoid("C10/orphaned-child") {
 		st.Exclude("C10/orphaned-child: by-digest reads of manifests that were children of an index")
 		mans = nil
+	}
+	if collecting {
+		// Close collects under the configured policy: the comparison is between the collected running server and the reopened one
+		_ = h.VerifGC("r")
+		_ = h.VerifGC("r/n")
+		if _, problems := validateLayoutTree(root, layoutOpts{}); len(problems) > 0 {
+			fail("layout-invalid-after-io-error", "after a history with an I/O error (%s in %q) and a collection the directory is not a valid layout: %s", faultOp, stepName(steps, faultStep), strings.Join(problems, "; "))
+		}
 	}
 	live := c10xSweep(h, []string{"r", "r/n"}, u.tags, mans, u.blobs, u.subject)
 	if !withWatchdog(30*time.Second, func() { _ = h.Close() }) {
@@ -183,9 +215,12 @@ func c10xProperty(t *rapid.T, st *Stats) {
 	again := c10xSweep(h2, []string{"r", "r/n"}, u.tags, mans, u.blobs, u.subject)
 	_ = h2.Close()
 	if live != again {
-		fail("restart-differs-after-io-error", "after a history with an I/O error (%s in %q) the running server and a new server on the same directory answer differently:\n%s", faultOp, stepName(steps, faultStep), lineDiff(live, again))
+		fail("restart-differs-after-io-error", "after a history with an I/O error (%s in %q) the running server and a new server on the same directory answer differently:\n%s\ndirectory:\n%s", faultOp, stepName(steps, faultStep), lineDiff(live, again), treeSnapshot(root, false))
 	}
 	classes := []string{}
+	if collecting {
+		classes = append(classes, "collecting")
+	}
 	nt := false
 	if faultStep >= 0 {
 		kind := strings.Fields(steps[faultStep].name)[0]
@@ -217,4 +252,42 @@ func lineDiff(a, b string) string {
 func TestC10Faults(t *testing.T) {
 	st := newStats("TestC10Faults", "C10", c10xRule)
 	rapid.Check(t, func(rt *rapid.T) { c10xProperty(rt, st) })
+}
+
+// TestKF_C10_GCSaveFailed reproduces the listed finding: the collector removes blob files, then saves index.json; when
+// the save fails, index.json keeps entries without a blob file.
+func TestKF_C10_GCSaveFailed(t *testing.T) {
+	st := newStats("TestKF_C10_GCSaveFailed", "C10", "reproducer")
+	root := mkTemp("kf")
+	defer os.RemoveAll(root)
+	conf := baseConf(config.StoreDir, root)
+	conf.Storage.GC.GracePeriod = -1
+	conf.Storage.GC.Untagged = bp(true)
+	h := olareg.New(conf)
+	defer func() { _ = h.Close() }()
+	cfg := []byte("{}")
+	cd := kfPush(t, h, "r", cfg)
+	keep, _ := buildImage(mtImage, mtConfig, cd, 2, nil, nil, nil, "", map[string]string{"keep": "1"})
+	gone, _ := buildImage(mtImage, mtConfig, cd, 2, nil, nil, nil, "", map[string]string{"untagged": "1"})
+	if c := doReq(h, "PUT", "/v2/r/manifests/keep", keep, hdr("Content-Type", mtImage)).code; c != 201 {
+		t.Fatalf("setup: %d", c)
+	}
+	if c := doReq(h, "PUT", "/v2/r/manifests/"+dig("sha256", gone), gone, hdr("Content-Type", mtImage)).code; c != 201 {
+		t.Fatalf("setup: %d", c)
+	}
+	// the mutating calls of this collection: remove of the untagged manifest's blob, then createtemp / write / rename of index.json
+	vfs.Reset(root, true)
+	vfs.FailAt(4)
+	err := h.VerifGC("r")
+	failed := ""
+	for _, op := range vfs.Log() {
+		if strings.HasSuffix(op.Kind, "!fault") {
+			failed = op.Kind + " " + strings.TrimPrefix(op.Path, root)
+		}
+	}
+	vfs.Reset("", false)
+	if _, problems := validateLayoutTree(root, layoutOpts{}); len(problems) > 0 && strings.Contains(failed, "index.json") {
+		Fail(kfT{t}, st, "gc-save-failed-entries-without-blob", fmt.Sprintf("collection with %s failing (%v): %s", failed, err, strings.Join(problems, "; ")),
+			[]string{"push image by tag keep", "push image by digest (untagged)", "collect with untagged collection on, the rename of index.json fails", "validate the directory"}, nil)
+	}
 }
